@@ -11,7 +11,7 @@ from vf.gen import loads as GL
 from vf.gen import phys as GP
 from vf.pool import run_pool
 
-CLASSES = ["tiny", "small", "interior", "interior", "interior-cap", "large", "huge", "huge"]
+CLASSES = ["tiny", "small", "interior", "interior", "interior-cap", "large", "interior", "huge"]
 FLAGS = [True, False, False, True, False, False, True, False]
 
 
